@@ -18,7 +18,7 @@ ASSUMPTIONS = [
     "replayed per-step log-probs are compared within 1e-4 + 8 ulp of the largest raw logit of the call (unscaled CVRPTW logits reach 5e3, i.e. 4e-3 of slack; everywhere else the slack stays ~1e-4); a parent mix-up changes them by O(0.1)",
     "OP is run on instances where every customer is a feasible first move (the start rule is a recorded C12 finding)",
 ]
-REQUIRED_COUNTERS = ["c13_beam_calls", "c13_topk_audits", "c13_beams_checked", "c13_replays", "c13_best_taps", "c13_best_rows"]
+REQUIRED_COUNTERS = ["c13_warmup_calls", "c13_temperature_cases", "c13_beam_calls", "c13_topk_audits", "c13_beams_checked", "c13_replays", "c13_best_taps", "c13_best_rows"]
 MIN_NONTRIVIAL = {"quick": 2500, "thorough": 30000}
 WORKERS = {"quick": 14, "thorough": 16}
 BUDGET_S = {"quick": 500, "thorough": 3000}
@@ -41,7 +41,15 @@ def cases(tier, seed):
                 for B in ((1, 3) if q else (1, 2, 5)):
                     for sb in (False, True):
                         for r in range(2 if q else 5):
-                            out.append(dict(env=name, n=n, B=B, W=W, select_best=sb, s=rnd.randrange(10**6), wseed=r))
+                            c = dict(env=name, n=n, B=B, W=W, select_best=sb, s=rnd.randrange(10**6), wseed=r)
+                            u = rnd.random()
+                            if u < 0.3:
+                                c.update(temp=rnd.choice([0.5, 2.0, 0.7]), temp_via=rnd.choice(["call", "ctor"]))
+                            if rnd.random() < 0.35:
+                                # earlier calls on the same policy object: same number of beam rows split differently, or identical
+                                alt = [(b2, (B * W) // b2) for b2 in range(1, B * W + 1) if (B * W) % b2 == 0 and 2 <= (B * W) // b2 <= maxw]
+                                c["warm"] = [list(rnd.choice(alt))] + ([[B, W]] if rnd.random() < 0.5 else [])
+                            out.append(c)
     return out
 
 
